@@ -90,6 +90,15 @@ pub fn utf8(args: &[String]) -> i32 {
             report(&[], e, r, &mut out, &mut bad);
         }
     }
+    {
+        // the C-land empty string: NULL with length 0 (what a default-constructed std::string_view passes)
+        let r = unsafe { diplomat_is_str(core::ptr::null(), 0) };
+        evals += 1;
+        if !r {
+            out.line(&json!({"bytes": [], "null": true, "spec": true, "impl": r}));
+            bad += 1;
+        }
+    }
     for len in 1..=3usize {
         let total: u32 = 1 << (8 * len);
         for x in 0..total {
@@ -205,13 +214,20 @@ struct Seen {
     contents: Vec<u64>,
 }
 
-fn classify<T>(p: *const T, len: usize, orig: *const T) -> &'static str {
+/// the live backing allocation of the current behaviour: (address, number of elements, element size)
+static mut BASE: (usize, usize, usize) = (0, 0, 0);
+fn classify<T>(p: *const T, len: usize, _orig: *const T) -> &'static str {
+    let (b, n, sz) = unsafe { BASE };
     if p.is_null() {
         "null"
-    } else if len > 0 || (orig as usize != 0 && p == orig && false) {
-        if p == orig { "A" } else { "other" }
+    } else if n > 0 && p as usize == b {
+        "A"
+    } else if n > 0 && p as usize == b + sz {
+        "A+1" // one element into the allocation (sub-range views; also the empty range there)
+    } else if len > 0 {
+        "other"
     } else {
-        "dangling" // empty, non-null: never dereferenced
+        "dangling" // empty, non-null, outside any allocation: never dereferenced
     }
 }
 
@@ -242,6 +258,7 @@ unsafe fn null_view<V, T>() -> V {
 
 fn run_views_one<T: Elem>(beh: &[Value]) -> Option<Value> {
     track::reset();
+    unsafe { BASE = (0, 0, 0); }
     let mut backing: Option<Vec<T>> = None; // owner of borrowed data
     let mut held: Held<T> = Held::None;
     let mut orig: *const T = core::ptr::null();
@@ -264,10 +281,15 @@ fn run_views_one<T: Elem>(beh: &[Value]) -> Option<Value> {
                                 let mut v = data;
                                 v.shrink_to_fit();
                                 orig = v.as_ptr();
+                                BASE = (v.as_ptr() as usize, n, core::mem::size_of::<T>());
                                 if n > 0 {
                                     slot = Some(track::watch(v.as_ptr()));
                                 }
-                                let p: *mut [T] = &mut v[..] as *mut [T];
+                                // "sub": the value is the sub-range [1, 1+m) of the buffer (m may be 0)
+                                let p: *mut [T] = match ev.get("sub").and_then(|x| x.as_u64()) {
+                                    Some(m) => { orig = v.as_ptr().add(1); &mut v[1..1 + m as usize] as *mut [T] }
+                                    None => &mut v[..] as *mut [T],
+                                };
                                 backing = Some(v);
                                 held = match k {
                                     "imm" => Held::RustImm(p as *const [T]),
@@ -278,6 +300,7 @@ fn run_views_one<T: Elem>(beh: &[Value]) -> Option<Value> {
                             "own" => {
                                 let b: Box<[T]> = data.into_boxed_slice();
                                 orig = b.as_ptr();
+                                BASE = (b.as_ptr() as usize, n, core::mem::size_of::<T>());
                                 if n > 0 {
                                     slot = Some(track::watch(b.as_ptr()));
                                 }
@@ -287,6 +310,7 @@ fn run_views_one<T: Elem>(beh: &[Value]) -> Option<Value> {
                                 let bytes: Vec<u8> = (1..=n as u64).map(|j| (64 + j) as u8).collect();
                                 let b: Box<str> = String::from_utf8(bytes).unwrap().into_boxed_str();
                                 orig = b.as_ptr() as *const T;
+                                BASE = (b.as_ptr() as usize, n, 1);
                                 if n > 0 {
                                     slot = Some(track::watch(b.as_ptr()));
                                 }
